@@ -2,6 +2,7 @@ package main
 
 import (
 	"fmt"
+	"math"
 	"reflect"
 	"regexp"
 	"strings"
@@ -31,9 +32,9 @@ type EvalError struct {
 func (e *EvalError) Error() string { return e.Msg }
 
 type Ref struct {
-	env    *Env
-	Allocs []int // allocation trace
-	AllocNodes []*N // the node that made each allocation
+	env        *Env
+	Allocs     []int // allocation trace
+	AllocNodes []*N  // the node that made each allocation
 	// ConstFolded tells the evaluator which allocation sites the definition
 	// does not count as run-time allocations (constant arrays / ranges are
 	// built at compile time when optimisation is on). nil = count everything.
@@ -197,7 +198,12 @@ func (r *Ref) Eval(n *N) (v interface{}, err *EvalError) {
 			if err != nil {
 				return nil, err
 			}
-			out[p.S] = v
+			if _, dup := out[p.S]; !dup {
+				// Every pair is evaluated; of two pairs with one key the first
+				// keeps its place (the pinned tree's behaviour: the language
+				// definition is silent on repeated keys).
+				out[p.S] = v
+			}
 		}
 		if e := r.alloc(n, len(n.C)); e != nil {
 			return nil, e
@@ -590,6 +596,11 @@ func (r *Ref) bin(n *N) (interface{}, *EvalError) {
 		// only the overloaded form is in the fragment: OpA applied to two *Obj
 		x, ok1 := a.(*Obj)
 		y, ok2 := b.(*Obj)
+		if xi, ok := a.(int); ok {
+			if yi, ok := b.(int); ok {
+				return math.Pow(float64(xi), float64(yi)), nil // the power of two numbers is a float
+			}
+		}
 		if !ok1 || !ok2 {
 			return nil, r.outside(n, "** on %T, %T", a, b)
 		}
@@ -629,6 +640,22 @@ func (r *Ref) bin(n *N) (interface{}, *EvalError) {
 			return x % y, nil
 		}
 	case "<", "<=", ">", ">=":
+		if fx, isF := a.(float64); isF {
+			// a float against an int: the int is promoted
+			if y, ok := b.(int); ok {
+				fy := float64(y)
+				switch op {
+				case "<":
+					return fx < fy, nil
+				case "<=":
+					return fx <= fy, nil
+				case ">":
+					return fx > fy, nil
+				default:
+					return fx >= fy, nil
+				}
+			}
+		}
 		if x, ok := a.(int); ok {
 			if y, ok := b.(int); ok {
 				switch op {
